@@ -257,7 +257,7 @@ impl PendingSubscriptionSink {
 				subscribers: self.subscribers,
 				uniq_sub: self.uniq_sub,
 				unsubscribe: IsUnsubscribed(tx),
-				_permit: Arc::new(self.permit),
+				_permit: Some(Arc::new(self.permit)),
 			})
 		} else {
 			panic!(
@@ -305,8 +305,8 @@ pub struct SubscriptionSink {
 	uniq_sub: SubscriptionKey,
 	/// A future to that fires once the unsubscribe method has been called.
 	unsubscribe: IsUnsubscribed,
-	/// Subscription permit
-	_permit: Arc<SubscriptionPermit>,
+	/// Subscription permit, shared by all clones of the sink (`None` only while the sink is being dropped).
+	_permit: Option<Arc<SubscriptionPermit>>,
 }
 
 impl SubscriptionSink {
@@ -413,7 +413,10 @@ impl SubscriptionSink {
 
 impl Drop for SubscriptionSink {
 	fn drop(&mut self) {
-		if self.is_active_subscription() {
+		// Only the last sink of a subscription unsubscribes it, the clones that are still around stay usable.
+		let is_last = self._permit.take().and_then(Arc::into_inner).is_some();
+
+		if is_last && self.is_active_subscription() {
 			self.subscribers.lock().remove(&self.uniq_sub);
 		}
 	}
